@@ -23,6 +23,7 @@ func (r Result) String() string { return [...]string{"unsat", "sat", "unknown"}[
 
 // Solver is one long-lived solver process spoken to over a pipe (SMT-LIB2).
 type Solver struct {
+	NRetried int // queries asked a second time with a longer limit
 	Cmd      []string
 	cmd      *exec.Cmd
 	in       io.WriteCloser
@@ -217,6 +218,30 @@ func (s *Solver) readLine() (string, error) {
 
 // Check runs (check-sat).
 func (s *Solver) Check() Result {
+	r, hadErr := s.check1()
+	if r == Unknown && !hadErr && s.TimeoutMs > 0 {
+		// a query that ran into the per-query time limit (a loaded machine is enough) is
+		// asked once more with six times the limit before the path is given up
+		s.send(fmt.Sprintf("(set-option :timeout %d)", 6*s.TimeoutMs))
+		r, hadErr = s.check1()
+		s.send(fmt.Sprintf("(set-option :timeout %d)", s.TimeoutMs))
+		s.NRetried++
+	}
+	if hadErr {
+		r = Unknown
+	}
+	switch r {
+	case Sat:
+		s.NSat++
+	case Unsat:
+		s.NUnsat++
+	default:
+		s.NUnknown++
+	}
+	return r
+}
+
+func (s *Solver) check1() (Result, bool) {
 	t0 := time.Now()
 	s.send("(check-sat)")
 	r := Unknown
@@ -225,9 +250,8 @@ func (s *Solver) Check() Result {
 		l, err := s.readLine()
 		if err != nil {
 			s.Errors = append(s.Errors, "solver died: "+err.Error())
-			s.NUnknown++
 			s.Time += time.Since(t0)
-			return Unknown
+			return Unknown, true
 		}
 		if strings.HasPrefix(l, "(error") {
 			s.Errors = append(s.Errors, l)
@@ -250,18 +274,7 @@ func (s *Solver) Check() Result {
 		break
 	}
 	s.Time += time.Since(t0)
-	if hadErr {
-		r = Unknown
-	}
-	switch r {
-	case Sat:
-		s.NSat++
-	case Unsat:
-		s.NUnsat++
-	default:
-		s.NUnknown++
-	}
-	return r
+	return r, hadErr
 }
 
 // CheckWith: is (asserted ∧ extra) satisfiable? Uses an inner scope.
